@@ -2173,14 +2173,14 @@ class LinearOperator(object):
         if method == "symeig":
             evals, evecs = self._symeig(eigenvectors=True)
             # TODO: only use non-zero evals (req. dealing w/ batches...)
-            root = evecs * evals.clamp_min(0.0).sqrt().unsqueeze(-2)
+            root = _scale_columns(evecs, evals.clamp_min(0.0).sqrt())
         elif method == "diagonalization":
             evals, evecs = self.diagonalization()
-            root = evecs * evals.clamp_min(0.0).sqrt().unsqueeze(-2)
+            root = _scale_columns(evecs, evals.clamp_min(0.0).sqrt())
         elif method == "svd":
             U, S, _ = self.svd()
             # TODO: only use non-zero singular values (req. dealing w/ batches...)
-            root = U * S.sqrt().unsqueeze(-2)
+            root = _scale_columns(U, S.sqrt())
         elif method == "lanczos":
             root = self._root_decomposition()
         else:
@@ -2260,14 +2260,14 @@ class LinearOperator(object):
         elif method == "symeig":
             evals, evecs = self._symeig(eigenvectors=True)
             # TODO: only use non-zero evals (req. dealing w/ batches...)
-            inv_root = evecs * evals.clamp_min(1e-7).reciprocal().sqrt().unsqueeze(-2)
+            inv_root = _scale_columns(evecs, evals.clamp_min(1e-7).reciprocal().sqrt())
         elif method == "diagonalization":
             evals, evecs = self.diagonalization()
-            inv_root = evecs * evals.clamp_min(1e-7).reciprocal().sqrt().unsqueeze(-2)
+            inv_root = _scale_columns(evecs, evals.clamp_min(1e-7).reciprocal().sqrt())
         elif method == "svd":
             U, S, _ = self.svd()
             # TODO: only use non-zero singular values (req. dealing w/ batches...)
-            inv_root = U * S.clamp_min(1e-7).reciprocal().sqrt().unsqueeze(-2)
+            inv_root = _scale_columns(U, S.clamp_min(1e-7).reciprocal().sqrt())
         elif method == "pinverse":
             # this is numerically unstable and should rarely be used
             root = self.root_decomposition().root.to_dense()
@@ -2971,6 +2971,22 @@ class LinearOperator(object):
 
     def __truediv__(self, other: Union[torch.Tensor, float]) -> LinearOperator:
         return self.div(other)
+
+
+def _scale_columns(
+    mat: Union[Float[Tensor, "... N M"], Float[LinearOperator, "... N M"]], scale: Float[Tensor, "... M"]
+) -> Union[Float[Tensor, "... N M"], Float[LinearOperator, "... N M"]]:
+    r"""
+    Computes :math:`\mathbf M \text{diag}(\mathbf s)`, i.e. scales the columns of (eigen/singular vector matrix)
+    :attr:`mat` by :attr:`scale`. A broadcasted elementwise product is only valid for dense matrices;
+    structured operators (e.g. diagonal or Kronecker eigenvectors) are multiplied by an explicit diagonal operator.
+    """
+    from linear_operator.operators.dense_linear_operator import DenseLinearOperator
+    from linear_operator.operators.diag_linear_operator import DiagLinearOperator
+
+    if torch.is_tensor(mat) or isinstance(mat, DenseLinearOperator):
+        return mat * scale.unsqueeze(-2)
+    return mat @ DiagLinearOperator(scale)
 
 
 def _import_dotted_name(name: str):
